@@ -19,7 +19,7 @@ def _c31_classes(i, o):
                 if mx > 0 and len(before[-2]) == mx and len(after[-2]) == mx - 1:
                     cls.append('full-table-lost-a-peer')
                     break
-        if any(isinstance(s, list) and any(r[1] == [150, 0] for r in s[-2]) for s in o):
+        if any(isinstance(s, list) and any(r[1] == [75, 1] for r in s[-2]) for s in o):
             cls.append('score-clamped-at-max')
     return cls
 
